@@ -111,7 +111,10 @@ def _pm2_code_tree(bw, rnd, used, feat):
     lens = dict(zip(used, L))
     nc = max(used) + 1
     if rnd.random() < 0.3:
-        nc = rnd.randrange(nc, 30)          # only the 29 meaningful codes 0..28 are ever declared
+        # the 5-bit count goes up to 31: entries 29 and 30 have no meaning as commands, but declared *unused* (length 0) they are
+        # simply a longer spelling of the same code
+        nc = rnd.randrange(nc, 32) if rnd.random() < 0.5 else rnd.choice([29, 30, 31])
+        feat.add('code-count-%s' % ('30-31' if nc >= 30 else 'upto29'))
     minl = rnd.randrange(1, mn + 1)
     lb = (max(L) - minl + 1).bit_length()
     if rnd.random() < 0.3:
